@@ -382,14 +382,18 @@ def solve_many(queries, timeout_s=120, workdir=None, jobs=None):
         open(q.smt2, "w").write(to_smt2(q.cons))
 
     def work(q):
-        r1, t1 = _run_cli(["z3", f"-T:{int(timeout_s)}", q.smt2], timeout_s + 10)
-        r2, t2 = _run_cli(["cvc5", "--lang", "smt2", f"--tlimit={int(CROSS_CAP_S * 1000)}", q.smt2], CROSS_CAP_S + 10)
-        solver2 = "cvc5"
-        if r2 == "timeout":
-            cap = max(30, int(t1 * 6))
-            r2, t3 = _run_cli(["z3-new", f"-T:{cap}", q.smt2], cap + 10)
-            solver2 = "z3-5.1.0"
-            t2 += t3
+        # first solver and the short-capped second opinion run side by side; when cvc5 does not finish within its cap, z3 5.1.0 is
+        # started at once (it then overlaps with the first solver instead of following it)
+        with ThreadPoolExecutor(max_workers=2) as inner:
+            f1 = inner.submit(_run_cli, ["z3", f"-T:{int(timeout_s)}", q.smt2], timeout_s + 10)
+            r2, t2 = _run_cli(["cvc5", "--lang", "smt2", f"--tlimit={int(CROSS_CAP_S * 1000)}", q.smt2], CROSS_CAP_S + 10)
+            solver2 = "cvc5"
+            if r2 == "timeout":
+                cap = int(min(max(60, timeout_s * 2), 1800))
+                r2, t3 = _run_cli(["z3-new", f"-T:{cap}", q.smt2], cap + 10)
+                solver2 = "z3-5.1.0"
+                t2 += t3
+            r1, t1 = f1.result()
         q.time, q.cross_time, q.cross, q.cross_solver = t1, t2, r2, solver2
         if r1 not in ("sat", "unsat"):
             q.result = "unknown"
